@@ -27,7 +27,7 @@ def summarize(prop, record, res, keep_record=False):
     known = Counter(v.known for v in res.violations if v.known is not None)
     out = {
         'run': record['run'],
-        'n_events': len(record.get('events', ())),
+        'n_events': len(record.get('events', ())) + len((record.get('session2') or {}).get('events', ())),
         'n_ok': getattr(res, 'n_ok_state', 0),
         'nontrivial': bool(getattr(res, 'nontrivial', lambda p: res.n_ok_state >= 2)(prop)),
         'sig': sorted(repr(t) for t in res.sig),
